@@ -20,6 +20,7 @@ type Clause struct {
 
 type LoopSpec struct {
 	Invs      []*Clause
+	Preserves []*Clause // checked on every back edge (may refer to the header state with athdr), not assumed
 	Decreases []*Clause // lexicographic tuple
 	Uses      []*Clause
 }
@@ -69,7 +70,7 @@ type Lemma struct {
 	Line   int
 }
 
-var reClause = regexp.MustCompile(`^(requires|ensures|assumes|invariant|decreases|assigns|inline|use|props|trust|check|loop|ghost|abstract|bounded|results|pure)\b(\[[^\]]*\])?\s*(\{[^}]*\})?\s*(.*)$`)
+var reClause = regexp.MustCompile(`^(requires|ensures|assumes|invariant|preserves|decreases|assigns|inline|use|props|trust|check|loop|ghost|abstract|bounded|results|pure)\b(\[[^\]]*\])?\s*(\{[^}]*\})?\s*(.*)$`)
 
 func (p *Program) parseContracts(path string, overlay []byte) error {
 	var data []byte
@@ -89,7 +90,7 @@ func (p *Program) parseContracts(path string, overlay []byte) error {
 		ln   int
 	}
 	var lines []lline
-	reStart := regexp.MustCompile(`^(func|interface|spec|lemma|axiom|autolemma|autoaxiom|foldaxiom|comparable|appendlemma|fieldinv|eleminv|typeinv|requires|ensures|assumes|invariant|decreases|assigns|inline|use|props|trust|check|loop|ghost|abstract|bounded|results|pure)\b`)
+	reStart := regexp.MustCompile(`^(func|interface|spec|lemma|axiom|autolemma|autoaxiom|foldaxiom|comparable|appendlemma|fieldinv|eleminv|typeinv|requires|ensures|assumes|invariant|preserves|decreases|assigns|inline|use|props|trust|check|loop|ghost|abstract|bounded|results|pure)\b`)
 	for ln, raw := range rawLines {
 		t := strings.TrimSpace(raw)
 		if !strings.HasPrefix(t, "//@") {
@@ -283,6 +284,8 @@ func (p *Program) parseContracts(path string, overlay []byte) error {
 				switch m2[1] {
 				case "invariant":
 					cur.Loops[n].Invs = append(cur.Loops[n].Invs, c2)
+				case "preserves":
+					cur.Loops[n].Preserves = append(cur.Loops[n].Preserves, c2)
 				case "decreases":
 					cur.Loops[n].Decreases = append(cur.Loops[n].Decreases, c2)
 				case "use":
@@ -297,6 +300,12 @@ func (p *Program) parseContracts(path string, overlay []byte) error {
 				return fail("invariant outside loop")
 			}
 			cur.Loops[curLoop].Invs = append(cur.Loops[curLoop].Invs, cl)
+			last = cl
+		case "preserves":
+			if curLoop < 0 {
+				return fail("preserves outside loop")
+			}
+			cur.Loops[curLoop].Preserves = append(cur.Loops[curLoop].Preserves, cl)
 			last = cl
 		case "decreases":
 			if curLoop >= 0 {
@@ -382,6 +391,7 @@ func (p *Program) parseContracts(path string, overlay []byte) error {
 		cls = append(cls, c.Uses...)
 		for _, l := range c.Loops {
 			cls = append(cls, l.Invs...)
+			cls = append(cls, l.Preserves...)
 			cls = append(cls, l.Decreases...)
 			cls = append(cls, l.Uses...)
 		}
